@@ -444,6 +444,37 @@ def inline_new_locals(fn, recorded_names):
                 loads = _loads(fn, v)
                 if not loads:
                     continue
+                # `v = E; self.f = v; ... v ...`: after the store the field *is* the value - later reads of the new
+                # local become reads of the field (as long as the field is not stored again in between)
+                if len(loads) > 1:
+                    import copy as _copy
+
+                    for j in range(i + 1, len(blk)):
+                        st2 = blk[j]
+                        if isinstance(st2, ast.Assign) and len(st2.targets) == 1 and isinstance(st2.targets[0], ast.Attribute) and isinstance(st2.value, ast.Name) and st2.value.id == v and all(isinstance(x, (ast.Attribute, ast.Name, ast.Load, ast.Store)) for x in ast.walk(st2.targets[0])):
+                            chain = ast.unparse(st2.targets[0])
+                            tail = blk[j + 1 :]
+                            restored = any(isinstance(x, (ast.Attribute, ast.Subscript)) and isinstance(x.ctx, (ast.Store, ast.Del)) and (ast.unparse(x) == chain or chain.startswith(ast.unparse(x) + ".")) for t2 in tail for x in ast.walk(t2))
+                            later_ids = {id(x) for t2 in tail for x in ast.walk(t2)}
+                            if restored or not any(id(l) in later_ids for l in loads):
+                                break
+                            fld = st2.targets[0]
+
+                            class A(ast.NodeTransformer):
+                                def visit_Name(self, n):
+                                    if n.id == v and isinstance(n.ctx, ast.Load):
+                                        new = _copy.deepcopy(fld)
+                                        for x in ast.walk(new):
+                                            if hasattr(x, "ctx"):
+                                                x.ctx = ast.Load()
+                                        return ast.copy_location(new, n)
+                                    return n
+
+                            for jj in range(j + 1, len(blk)):
+                                blk[jj] = A().visit(blk[jj])
+                            loads = _loads(fn, v)
+                            k += 1
+                            break
                 # an object that is mutated through the name is not an alias of its initial value
                 pmap = {}
                 for par in ast.walk(fn):
@@ -560,7 +591,7 @@ def _bind(call, params, defaults, drop_first):
 def _helper_shape(fn):
     """('expr', assigns, return_expr) | ('stmts', body, return_expr_or_None) | None for a helper that can be inlined:
     no decorators other than staticmethod, no yield / nested defs / global, a single trailing return (or none)."""
-    if any(ast.unparse(d) not in ("staticmethod",) for d in fn.decorator_list):
+    if any(ast.unparse(d) not in ("staticmethod", "classmethod") for d in fn.decorator_list):
         return None
     body = [b for b in fn.body if not (isinstance(b, ast.Expr) and isinstance(b.value, ast.Constant))]
     if not body:
@@ -570,7 +601,11 @@ def _helper_shape(fn):
             return None
     rets = [n for n in ast.walk(fn) if isinstance(n, ast.Return)]
     if len(rets) > 1 or (rets and rets[0] is not body[-1]):
-        return None
+        # early returns in if / else structures: rewritten to a single trailing return of a result variable
+        conv = _single_exit(body)
+        if conv is None:
+            return None
+        return ("stmts", conv, ast.Name(id="_ret", ctx=ast.Load()))
     ret = rets[0].value if rets else None
     stmts = body[:-1] if rets else body
     if all(isinstance(b, ast.Assign) and len(b.targets) == 1 and isinstance(b.targets[0], ast.Name) for b in stmts) and ret is not None:
@@ -578,6 +613,61 @@ def _helper_shape(fn):
         if len(set(names)) == len(names):
             return ("expr", stmts, ret)
     return ("stmts", stmts, ret)
+
+
+def _single_exit(body):
+    """Equivalent statement list with every `return V` replaced by `_ret = V` and control flow restructured so that
+    nothing runs after a taken return (early returns inside if / else only); None when a return sits in a loop, try
+    or with.  The caller appends `return _ret`."""
+    import copy
+
+    def has_ret(st):
+        return any(isinstance(x, ast.Return) for x in ast.walk(st))
+
+    def conv(stmts):
+        out = []
+        for i, st in enumerate(stmts):
+            if isinstance(st, ast.Return):
+                val = copy.deepcopy(st.value) if st.value is not None else ast.Constant(value=None)
+                out.append(ast.copy_location(ast.Assign(targets=[ast.Name(id="_ret", ctx=ast.Store())], value=val), st))
+                return out, True
+            if isinstance(st, ast.If) and has_ret(st):
+                rest = list(stmts[i + 1 :])
+                b = conv(list(st.body))
+                if b is None:
+                    return None
+                bb, bdone = b
+                if not bdone:
+                    r2 = conv(rest)
+                    if r2 is None:
+                        return None
+                    bb, bdone = bb + r2[0], r2[1]
+                o = conv(list(st.orelse))
+                if o is None:
+                    return None
+                oo, odone = o
+                if not odone:
+                    r3 = conv(copy.deepcopy(rest))
+                    if r3 is None:
+                        return None
+                    oo, odone = oo + r3[0], r3[1]
+                new = ast.copy_location(ast.If(test=copy.deepcopy(st.test), body=bb or [ast.copy_location(ast.Pass(), st)], orelse=oo), st)
+                out.append(new)
+                return out, bdone and odone
+            if has_ret(st):
+                return None
+            out.append(copy.deepcopy(st))
+        return out, False
+
+    res = conv(list(body))
+    if res is None:
+        return None
+    out, done = res
+    if not done:
+        out = [ast.copy_location(ast.Assign(targets=[ast.Name(id="_ret", ctx=ast.Store())], value=ast.Constant(value=None)), body[0])] + out
+    for x in out:
+        ast.fix_missing_locations(x)
+    return out
 
 
 _SEQ = [0]
@@ -640,7 +730,13 @@ def inline_new_helpers(project, rec):
             m = project.lookup_method(caller.cls, f.attr)
             if m is not None and m.qualname in shapes:
                 sh = shapes[m.qualname]
-                drop = not any(ast.unparse(d) == "staticmethod" for d in m.node.decorator_list)
+                decos = {ast.unparse(d) for d in m.node.decorator_list}
+                if "classmethod" in decos:
+                    # the helper's `cls` must be the caller's: only from a classmethod through `cls.`, same spelling
+                    cdecos = {ast.unparse(d) for d in caller.node.decorator_list}
+                    if not (f.value.id == "cls" and "classmethod" in cdecos and m.node.args.args and m.node.args.args[0].arg == "cls"):
+                        return None, False
+                drop = "staticmethod" not in decos
                 return sh, drop
         if isinstance(f, ast.Attribute) and isinstance(f.value, ast.Name) and caller.cls is not None and f.value.id == caller.cls.name:
             m = project.lookup_method(caller.cls, f.attr)
@@ -717,13 +813,21 @@ def inline_new_helpers(project, rec):
                     pre = []
                     ren = {}
                     # parameters become aliases (inlined later when safe); helper locals keep their spelling unless taken
+                    sren = {}  # helper parameters that the helper rebinds: their stores are renamed too
                     for p_, a in b.items():
-                        if isinstance(a, (ast.Name, ast.Constant)) and not any(isinstance(x, ast.Name) and x.id == p_ and isinstance(x.ctx, (ast.Store, ast.Del)) for x in ast.walk(hfi.node)):
+                        rebound = any(isinstance(x, ast.Name) and x.id == p_ and isinstance(x.ctx, (ast.Store, ast.Del)) for x in ast.walk(hfi.node))
+                        if isinstance(a, (ast.Name, ast.Constant)) and not rebound:
                             ren[p_] = a
+                        elif isinstance(a, ast.Name) and rebound and not any(isinstance(x, ast.Name) and x.id == a.id and isinstance(x.ctx, ast.Load) and getattr(x, "lineno", 0) > getattr(st, "end_lineno", getattr(st, "lineno", 0)) for x in ast.walk(fn)):
+                            # the caller's variable is dead after the call: the helper's rebinding may act on it directly
+                            ren[p_] = a
+                            sren[p_] = a.id
                         else:
                             nm = f"{p_}_h{_H[0]}"
                             pre.append(ast.copy_location(ast.Assign(targets=[ast.Name(id=nm, ctx=ast.Store())], value=copy.deepcopy(a)), st))
                             ren[p_] = ast.Name(id=nm, ctx=ast.Load())
+                            if rebound:
+                                sren[p_] = nm
                     hl = {n.id for n in ast.walk(hfi.node) if isinstance(n, ast.Name) and isinstance(n.ctx, (ast.Store, ast.Del))} - set(ps)
                     lren = {n: (f"{n}_h{_H[0]}" if n in used else n) for n in hl}
                     direct = None
@@ -739,6 +843,8 @@ def inline_new_helpers(project, rec):
                         def visit_Name(self, n):
                             if n.id in ren and isinstance(n.ctx, ast.Load):
                                 return ast.copy_location(copy.deepcopy(ren[n.id]), n)
+                            if n.id in sren and isinstance(n.ctx, (ast.Store, ast.Del)):
+                                return ast.copy_location(ast.Name(id=sren[n.id], ctx=n.ctx), n)
                             if n.id in lren:
                                 return ast.copy_location(ast.Name(id=lren[n.id], ctx=n.ctx), n)
                             return n
@@ -802,7 +908,11 @@ def normalise(project, path=PINNED):
         return stats
     with open(path) as fh:
         rec = json.load(fh)
-    stats["functions_recorded"] = len(rec)
+    stats["functions_recorded"] = sum(1 for k in rec if "#" not in k)
+    try:
+        stats["module_constants_inlined"] = inline_new_module_constants(project, rec)
+    except RecursionError:  # pragma: no cover
+        stats["module_constants_inlined"] = 0
     try:
         stats["helper_calls_inlined"] = inline_new_helpers(project, rec)
     except RecursionError:  # pragma: no cover
@@ -840,6 +950,8 @@ def normalise(project, path=PINNED):
                     stats["locals_inlined"] += k
                     progress += k
                 if not progress:
+                    progress += fold_list_concat(fi.node)
+                if not progress:
                     break
                 if _round == 0:
                     stats["functions_renamed"] += 1
@@ -848,8 +960,84 @@ def normalise(project, path=PINNED):
     return stats
 
 
+def _module_constants(mod):
+    """name -> value for names assigned exactly once at module level by a plain `NAME = expr` / `NAME: T = expr`."""
+    seen, vals = {}, {}
+    for st in mod.tree.body:
+        tg, val = None, None
+        if isinstance(st, ast.Assign) and len(st.targets) == 1 and isinstance(st.targets[0], ast.Name):
+            tg, val = st.targets[0].id, st.value
+        elif isinstance(st, ast.AnnAssign) and isinstance(st.target, ast.Name) and st.value is not None:
+            tg, val = st.target.id, st.value
+        if tg is not None:
+            seen[tg] = seen.get(tg, 0) + 1
+            vals[tg] = val
+    return {k: v for k, v in vals.items() if seen[k] == 1}
+
+
+def _pure_constant_expr(e):
+    """Literal-ish expression: literals, names, arithmetic, containers and calls of plain constructors on such -
+    nothing that reads mutable state (no attribute of a name other than a module alias call)."""
+    for n in ast.walk(e):
+        if isinstance(n, (ast.Lambda, ast.Await, ast.Yield, ast.YieldFrom, ast.NamedExpr, ast.ListComp, ast.DictComp, ast.SetComp, ast.GeneratorExp, ast.Dict)):
+            return False
+    return True
+
+
+def inline_new_module_constants(project, rec):
+    """A module-level constant the record does not know (`_FLIP = diagflat([...])` hoisted out of a function) is put
+    back at its uses inside that module's functions - the inverse of `move constant to module level`."""
+    import copy
+
+    count = 0
+    for mod in {fi.module.name: fi.module for fi in project.functions.values()}.values():
+        known = rec.get(f"{mod.name}#globals")
+        if known is None:
+            continue
+        consts = {k: v for k, v in _module_constants(mod).items() if k not in known and _pure_constant_expr(v)}
+        if not consts:
+            continue
+        for fi in project.functions.values():
+            if fi.module is not mod:
+                continue
+            bound = {n.id for n in ast.walk(fi.node) if isinstance(n, ast.Name) and isinstance(n.ctx, ast.Store)} | {a.arg for a in ast.walk(fi.node) if isinstance(a, ast.arg)}
+
+            class S(ast.NodeTransformer):
+                def visit_Name(self, n):
+                    nonlocal count
+                    if isinstance(n.ctx, ast.Load) and n.id in consts and n.id not in bound:
+                        count += 1
+                        return ast.copy_location(copy.deepcopy(consts[n.id]), n)
+                    return n
+
+            for i, st in enumerate(list(fi.node.body)):
+                fi.node.body[i] = S().visit(st)
+            if hasattr(fi, "_cfg"):
+                del fi._cfg
+    return count
+
+
+def fold_list_concat(fn):
+    """`[a, b] + [c]` -> `[a, b, c]` (list literals only): the inverse of splitting a literal into named parts."""
+    n_fold = [0]
+
+    class F(ast.NodeTransformer):
+        def visit_BinOp(self, n):
+            self.generic_visit(n)
+            if isinstance(n.op, ast.Add) and isinstance(n.left, ast.List) and isinstance(n.right, ast.List) and not any(isinstance(x, ast.Starred) for x in n.left.elts + n.right.elts):
+                n_fold[0] += 1
+                return ast.copy_location(ast.List(elts=n.left.elts + n.right.elts, ctx=ast.Load()), n)
+            return n
+
+    for i, st in enumerate(list(fn.body)):
+        fn.body[i] = F().visit(st)
+    return n_fold[0]
+
+
 def record(project):
     out = {}
+    for mod in {fi.module.name: fi.module for fi in project.functions.values()}.values():
+        out[f"{mod.name}#globals"] = sorted(_module_constants(mod)) + sorted({st.targets[0].id for st in mod.tree.body if isinstance(st, ast.Assign) and len(st.targets) == 1 and isinstance(st.targets[0], ast.Name)})
     for q, fi in project.functions.items():
         try:
             ls = function_locals(fi.node)
